@@ -1430,6 +1430,24 @@ mod n {
     }
 
     #[test]
+    fn n_c14_triple_edits() {
+        let base = serde_json::to_value(&seed_model()).unwrap();
+        let mut edits = vec![];
+        collect_paths(&base, &mut vec![], &mut edits);
+        let base_fp = fingerprint(&seed_model().energy_indicators());
+        let focus: Vec<usize> = edits.iter().enumerate().filter(|(_, (p, _))| matches!(p.first().map(|s| s.as_str()), Some("schedules") | Some("loads"))).map(|(i, _)| i).collect();
+        drive("C14.edit3", "triples of structural edits: (every 2nd edit under schedules/loads) x (every 29th edit) x (every 31st edit) of the whole tree", |c| {
+            let a = focus[2 * c.pick((focus.len() + 1) / 2)];
+            let b = 29 * c.pick((edits.len() + 28) / 29);
+            let d = 31 * c.pick((edits.len() + 30) / 31) + 7;
+            if b >= edits.len() || d >= edits.len() || a == b || a == d || b == d {
+                return;
+            }
+            c14_run(c, &edits, &[a, b, d], &base, &base_fp);
+        });
+    }
+
+    #[test]
     fn n_c14_double_edits() {
         let base = serde_json::to_value(&seed_model()).unwrap();
         let mut edits = vec![];
